@@ -271,6 +271,49 @@ def make_parser_machine(ctx):
         def again(self):
             self.do(("again",))
 
+        @precondition(lambda self: self.cfg is not None)
+        @rule(i=st.integers(0, 2), stage=st.sampled_from(["ocr", "decoder", "decoder", "cropper"]), at=st.integers(1, 3))
+        def faulty(self, i, stage, at):
+            self.do(("faulty", i % len(self.cfg["pages"]), stage, at))
+
+        def op_faulty(self, i, stage, at):
+            """a page during whose processing one stage fails once (the `at`-th network call / decoded line / cropped line raises);
+            whatever happens to that page, the pages processed afterwards must come out as if it had never been seen"""
+            class FailAt:
+                def __init__(self, inner):
+                    self.__dict__["inner"], self.__dict__["n"] = inner, 0
+
+                def __call__(self, *a, **kw):
+                    self.__dict__["n"] += 1
+                    if self.__dict__["n"] == at:
+                        raise RuntimeError("CUDA out of memory. (injected fault)")
+                    return self.__dict__["inner"](*a, **kw)
+
+                def __getattr__(self, name):
+                    return getattr(self.__dict__["inner"], name)
+            if stage == "ocr":
+                holder, attr = self.parser.ocr.ocr_engine, "model"
+            elif stage == "decoder":
+                holder, attr = self.parser.decoder, "decoder"
+            else:
+                holder, attr = self.parser.line_cropper.crop_engine, "fast_remap"
+            inner = getattr(holder, attr)
+            setattr(holder, attr, FailAt(inner))
+            img, pl = self.pages[i]
+            try:
+                with catching_errors(), contextlib.redirect_stdout(io.StringIO()):
+                    self.parser.process_page(img.copy(), copy.deepcopy(pl))
+            except Exception:  # noqa: BLE001 - the faulty page itself may fail
+                self.ctx.event("faulty_page_raised")
+            finally:
+                if stage == "cropper":
+                    delattr(holder, attr)       # the instance attribute shadowed the method
+                else:
+                    setattr(holder, attr, inner)
+            self.ctx.event("page_with_a_failing_stage:" + stage)
+            self.last_out = None
+            self.last = ("faulty", i, stage)
+
         def op_again(self):
             """the layout object that came out of the last step is handed to the parser once more (a second pass over
             an already processed page: its lines now carry transcriptions and confidences)."""
